@@ -84,10 +84,35 @@ def core_part(c, pid="P1", name="Pno"):
         objs.append({"k": "repeat", "s": a, "e": b})
     for n, a, b in c.get("end", []):
         objs.append({"k": "ending", "s": a, "e": b, "number": n})
+    if c.get("bo"):
+        objs = build_order(objs, c["bo"])
     spec = {"id": pid, "name": name, "divs": q, "objs": objs}
     if c.get("abbr"):
         spec["abbr"] = c["abbr"]
     return M.finish_part(spec)
+
+
+def build_order(objs, bo):
+    """The order in which the notes and rests are added to the part ("bo" field of a case).  A part keeps of the
+    build order only the order of the objects that start at one time point, so a build order is described per
+    onset: bo is a string over {"a", "d"} with one letter per distinct onset of the notes in ascending time
+    order (a single letter stands for every onset): at an "a" onset the notes are added in ascending voice
+    order, at a "d" onset in descending voice order (bottom voice first); notes of one voice at one onset keep
+    their order.  The notes take the places of the notes in the object list, everything else stays put."""
+    idx = [i for i, o in enumerate(objs) if o["k"] in ("note", "rest", "unpitched")]
+    if any(o["k"] == "grace" for o in objs):
+        raise ValueError("build orders are not defined for cores with grace runs")
+    onsets = sorted({objs[i]["s"] for i in idx})
+    if len(bo) == 1:
+        bo = bo * len(onsets)
+    if len(bo) != len(onsets) or set(bo) - {"a", "d"}:
+        raise ValueError("bad build order %r for %d onsets" % (bo, len(onsets)))
+    sign = {t: (1 if f == "a" else -1) for t, f in zip(onsets, bo)}
+    new = sorted(idx, key=lambda i: (objs[i]["s"], sign[objs[i]["s"]] * (objs[i].get("voice") or 0), i))
+    out = list(objs)
+    for place, i in zip(idx, new):
+        out[place] = objs[i]
+    return out
 
 
 def expand(case):
@@ -502,6 +527,90 @@ def gen_C_slurpairs():
         yield {"sp": "C4", "m": [[0, 4]], "ev": ev, "deco": [b, a]}  # attached in the other order
     for a, b, c in combinations(sl, 3):
         yield {"sp": "C4", "m": [[0, 4]], "ev": ev, "deco": [a, b, c]}
+
+
+# ---------------------------------------------------------------------------------------------
+# H: build order of the voices x slurs / tuplets (export counters state['note_id_counter'])
+
+
+def _range_sets(ranges, nmax):
+    """all sets of 1..nmax ranges; a pair that shares a note also attached in the other order"""
+    for r in ranges:
+        yield [r]
+    if nmax >= 2:
+        for a, b in combinations(ranges, 2):
+            yield [a, b]
+            if {a[1], a[2]} & {b[1], b[2]}:
+                yield [b, a]
+    if nmax >= 3:
+        for a, b, c in combinations(ranges, 3):
+            yield [a, b, c]
+
+
+def _forward_pairs(ev):
+    """(i, j), i != j, such that note i is written before note j in a MusicXML file: earlier onset, or the same
+    onset and a lower voice (a slur runs forward in the document)"""
+    out = []
+    for i, a in enumerate(ev):
+        for j, b in enumerate(ev):
+            if i != j and (a[1], a[3], i) < (b[1], b[3], j):
+                out.append((i, j))
+    return out
+
+
+H1_PITCH = {1: (3, 4), 2: (5, 2)}
+
+
+def _h1_core(drop):
+    """two 1/4 measures on a grid of eighths, a one-unit note of voice 1 and of voice 2 (both on staff 1) at every
+    grid time 0..3, without the notes of voice 1 at the onsets in `drop`"""
+    ev = []
+    for v in (1, 2):
+        for t in range(4):
+            if v == 1 and t in drop:
+                continue
+            ev.append(["n", t, t + 1, v, 1, H1_PITCH[v][t % 2]])
+    return ev
+
+
+def gen_H_slurs(triples=False):
+    """Slurs x build order of the voices.  Core: two 1/4 measures (grid of eighths, onsets 0..3), voices 1 and 2
+    with a one-unit note at every onset (8 notes).  Slurs: every (i, j) of two different notes where i is written
+    before j in the file (inside a voice, between the voices, inside a measure and over the barline).
+    triples=False: every single slur and every pair of slurs (a pair that shares a note in both attachment orders) x
+    every build order = each of the 4 onsets independently top voice first / bottom voice first (2^4); plus the
+    cores in which voice 1 has no note at onset 0, at onset 2, at both (voice 1 enters after voice 2 in that
+    measure) x build order {all top first, all bottom first}.
+    triples=True: every set of three slurs on the full core, all notes added bottom voice first."""
+    meas = [[0, 2], [2, 4]]
+    base = {"sp": "H1", "m": meas, "ts": [[0, 1, 4]]}
+    if triples:
+        ev = _h1_core(())
+        sl = [["slur", i, j] for i, j in _forward_pairs(ev)]
+        for a, b, c in combinations(sl, 3):
+            yield dict(base, ev=ev, deco=[a, b, c], bo="d")
+        return
+    for drop in ((), (0,), (2,), (0, 2)):
+        ev = _h1_core(drop)
+        sl = [["slur", i, j] for i, j in _forward_pairs(ev)]
+        orders = ["".join(x) for x in product("ad", repeat=4)] if not drop else ["a", "d"]
+        for bo in orders:  # (outer loop: an index-stride block of the enumeration then holds every build order)
+            for deco in _range_sets(sl, 2):
+                yield dict(base, ev=ev, deco=deco, bo=bo)
+
+
+def gen_H_tuplets():
+    """Tuplet brackets x build order of the voices.  Core: two 1/4 measures, divisions 3, voices 1 and 2 (staff =
+    voice) with six triplet eighths each.  Brackets: inside a voice from note i to note i+1..i+3 (inside a measure
+    and over the barline); every single bracket and every pair (a pair that shares a note in both attachment
+    orders) x build order {all onsets top voice first, all bottom voice first, bottom first in measure 1 only, in
+    measure 2 only}."""
+    ev = [["n", t, t + 1, v, v, (t % 3) if v == 1 else 3 + (t % 3)] for v in (1, 2) for t in range(6)]
+    br = [["tuplet", 6 * k + i, 6 * k + j] for k in (0, 1) for i in range(6) for j in range(i + 1, min(i + 4, 6))]
+    base = {"sp": "H2", "q": [[0, 3]], "m": [[0, 3], [3, 6]], "ts": [[0, 1, 4]], "ev": ev}
+    for bo in ("a", "d", "dddaaa", "aaaddd"):
+        for deco in _range_sets(br, 2):
+            yield dict(base, deco=deco, bo=bo)
 
 
 # constant directions of the three families that end where the next one of their own family starts
